@@ -118,6 +118,11 @@ static void op(long c, long, vh::Tok& t)
     size_t n; unsigned char* d = exact(a, n);
     String in((const char*)d, n); free(d);
     put_str(String::fromBase64(in));
+  } else if(!strcmp(o, "b64a")) {
+    // fromBase64 on a String ATTACHED to the window of an exactly sized block window ++ tail
+    size_t n; char* b = block2(a, t.n > 2 ? t.v[2] : "-", n);
+    { String at; at.attach(b, n); put_str(String::fromBase64(at)); }
+    free(b);
   } else if(!strcmp(o, "u8sw")) {
     // sweep: prefix ++ [v] ++ suffix for every byte v; 256 fromString values, then 256 isValid bits
     const char* a2 = t.n > 2 ? t.v[2] : "-";
